@@ -14,6 +14,7 @@ pub mod c11;
 pub mod c12;
 pub mod c16;
 pub mod c19;
+pub mod c20;
 
 pub fn table() -> Vec<Prop> {
     vec![
@@ -31,5 +32,6 @@ pub fn table() -> Vec<Prop> {
         Prop { id: "C12", run: c12::run, replay: c12::replay },
         Prop { id: "C16", run: c16::run, replay: c16::replay },
         Prop { id: "C19", run: c19::run, replay: c19::replay },
+        Prop { id: "C20", run: c20::run, replay: c20::replay },
     ]
 }
